@@ -166,6 +166,12 @@ structure Driver where
 /-- `open()` on a fresh (closed) instrument under a fault plan -/
 def runOpen (d : Driver) (P : Plan) : St × Res := exec P fuel0 d.openP init
 
+/-- start of a new call: per-call counters cleared, flag and links kept -/
+def fresh (s : St) : St := { s with ioLog := [], trace := [], cnt := 0 }
+
+/-- `close()` under a fault plan, after a fault-free `open()` -/
+def runClose (d : Driver) (P : Plan) : St × Res := exec P fuel0 d.closeP (fresh (runOpen d noFault).1)
+
 /-- number of fault points passed by the fault-free `open()` -/
 def freeCount (d : Driver) : Nat := (runOpen d noFault).1.cnt
 
@@ -224,5 +230,21 @@ def recoverRow (d : Driver) (P : Plan) : Bool :=
 def recoverAll (d : Driver) : Bool :=
   recoverRow d noFault &&
   (List.range (freeCount d)).all fun k => allKinds.all fun κ => recoverRow d (single k κ)
+
+/-- what the static analysis found at the start of an RPC method (other than open/close) -/
+inductive Guard
+  | guard     -- `self._check_is_open()` (directly or through the self-method called first) precedes any link access
+  | noio      -- never touches a link object
+  | bare      -- may reach a link object before any instrument-level check: stopped only by the transport's own check
+  deriving DecidableEq, Repr
+
+/-- the abstract program of such a method -/
+def Guard.prog : Guard → Prog
+  | .guard => [.atom 9001 .checkOpen, .atom 9002 .io]
+  | .noio => [.atom 9003 .pure]
+  | .bare => [.atom 9002 .io]
+
+/-- names of the methods that rely on the transport-level refusal -/
+def bareMethods (l : List (String × Guard)) : List String := (l.filter (fun m => m.2 == .bare)).map (·.1)
 
 end QmiModel.OpenProg
